@@ -1151,6 +1151,13 @@ fn hang_binop_expression(
                 ExpressionSide::Left
             };
 
+            // The LHS of `^` must keep its parentheses around a unary operator, whichever way it is formatted
+            let lhs_expression_context = if let BinOp::Caret(_) = binop {
+                ExpressionContext::BinaryLHSExponent
+            } else {
+                expression_context
+            };
+
             // TODO/FIXME: using test_shape here leads to too high of an indent level, causing the expression to hang unnecessarily
             let over_column_width =
                 is_hang_binop_over_width(test_shape, &full_expression, &binop, lhs_range);
@@ -1184,7 +1191,7 @@ fn hang_binop_expression(
                                 },
                                 lhs_shape,
                                 lhs_range,
-                                expression_context,
+                                lhs_expression_context,
                             ),
                             if contains_comments(&*rhs) {
                                 hang_binop_expression(
@@ -1212,7 +1219,7 @@ fn hang_binop_expression(
                                     binop.clone(),
                                     shape,
                                     lhs_range,
-                                    expression_context,
+                                    lhs_expression_context,
                                 )
                             } else {
                                 let context = if let BinOp::Caret(_) = binop {
@@ -1247,7 +1254,7 @@ fn hang_binop_expression(
                             binop.to_owned(),
                             shape,
                             lhs_range,
-                            expression_context,
+                            lhs_expression_context,
                         )
                     } else {
                         let context = if let BinOp::Caret(_) = binop {
